@@ -2,6 +2,7 @@ package grpcutil
 
 import (
 	"context"
+	"errors"
 	"net"
 	"sort"
 
@@ -21,9 +22,16 @@ type c11Sess struct {
 	id        string
 	opens     int
 	unhealthy bool
+	failOpen  bool
 }
 
-func (s *c11Sess) Open() (net.Conn, error) { s.opens++; return nil, nil }
+func (s *c11Sess) Open() (net.Conn, error) {
+	if s.failOpen {
+		return nil, errC11Open // e.g. yamux.ErrConnectionWriteTimeout: the session stays up and registered
+	}
+	s.opens++
+	return nil, nil
+}
 
 // a registered session may be failing its health check at the moment an update is applied
 // (healthCheck flips Connected <-> Error without notifying anybody); it is still registered
@@ -35,6 +43,8 @@ func (s *c11Sess) State() *session.MuxSessionInfo {
 }
 func (s *c11Sess) IsClosed() bool   { return false }
 func (s *c11Sess) Describe() string { return "verif-session-" + s.id }
+
+var errC11Open = errors.New("verif: transient stream-open failure")
 
 var c11LastState *resolver.State
 var c11Updates int
@@ -120,6 +130,16 @@ func verifHarness_C11_endpoints() {
 			if i < len(eps) {
 				verifAssert(eps[i] == want[i], "resolver-endpoints-are-exactly-the-registered-sessions")
 			}
+		}
+		// a transient failure to open a stream on a live, registered session changes nothing: the
+		// session is still registered, so its endpoint stays dialable
+		if len(want) > 0 && verifChoose("transient-open-failure", 2) == 1 {
+			s := objs[want[verifChoose("on-session", len(want))]]
+			s.failOpen = true
+			_, err := dial(context.Background(), s.id)
+			verifAssert(err != nil, "dial-reports-the-open-failure")
+			s.failOpen = false
+			verifReach("transient-open-failure")
 		}
 		// the dialer serves exactly those keys, through the session registered under the key
 		for _, id := range idNames[:nextID] {
